@@ -503,22 +503,34 @@ func runC06(c *Ctx) {
 	// ------------------------------------------------------------------ (6)
 	r6 := c.Rule("configured-signal-used", "in the stop core the non-escalation Commander.Stop passes ShutDownParams.Signal and ShutDownParams.ParentOnly of the same process")
 	n6 := 0
-	for _, sc := range s.StopCores {
-		AllInstrs(sc, func(in ssa.Instruction) {
-			call, ok := in.(*ssa.Call)
-			if !ok || !sameFunc(CalleeObj(&call.Call), s.MStop) {
-				return
+	for _, sc0 := range s.StopCores {
+		// the stop core and the Process methods it calls (an extracted signalling tail)
+		scope := []*ssa.Function{sc0}
+		AllInstrs(sc0, func(in ssa.Instruction) {
+			if call, ok := in.(*ssa.Call); ok {
+				if g := call.Call.StaticCallee(); g != nil && len(g.Blocks) > 0 && s.IsProcessMethod(g) && len(p.Callers(g)) == 1 {
+					scope = appendUniq(scope, g)
+				}
 			}
-			args := ArgsOf(&call.Call)
-			if len(args) != 2 {
-				return
-			}
-			if _, isConst := ConstInt(args[0]); isConst {
-				return
-			}
-			n6++
-			c.Check(PathOf(args[0]).LastField() == s.FSignal && PathOf(args[1]).LastField() == s.FParentOnly, r6, p.FuncKey(sc), p.InstrPos(call), "configured signal and parent_only forwarded", "the stop core does not forward shutdown.signal / shutdown.parent_only")
 		})
+		for _, sc := range scope {
+			sc := sc
+			AllInstrs(sc, func(in ssa.Instruction) {
+				call, ok := in.(*ssa.Call)
+				if !ok || !sameFunc(CalleeObj(&call.Call), s.MStop) {
+					return
+				}
+				args := ArgsOf(&call.Call)
+				if len(args) != 2 {
+					return
+				}
+				if _, isConst := ConstInt(args[0]); isConst {
+					return
+				}
+				n6++
+				c.Check(PathOf(args[0]).LastField() == s.FSignal && PathOf(args[1]).LastField() == s.FParentOnly, r6, p.FuncKey(sc0), p.InstrPos(call), "configured signal and parent_only forwarded", "the stop core does not forward shutdown.signal / shutdown.parent_only")
+			})
+		}
 	}
 	if n6 == 0 {
 		c.Bad(r6, "none", "", "the stop core never sends the configured signal")
